@@ -13,7 +13,7 @@ from __future__ import unicode_literals
 import itertools
 import random
 
-from .. import gen, oracles, ref, runner, scorecheck, spec
+from .. import gen, obs, oracles, ref, runner, scorecheck, spec
 from ..runner import failure
 
 PID = "C09"
@@ -42,6 +42,12 @@ def check_wellformed(inp):
         elif not scorecheck.well_formed_float(g) or not (0.0 <= g <= 10.0):
             fails.append(failure("float with one decimal in [0,10]", repr(g), note=SLOTS[i]))
     sev = o.severities()
+    try:
+        sub = obs.trivial_subclass(type(o))(o.vector)          # an instance of 'class Sub(C): pass' is rated like any object of C
+        if (sub.scores(), sub.severities()) != (o.scores(), sev):
+            fails.append(failure([list(o.scores()), list(sev)], [list(sub.scores()), list(sub.severities())], note="scores / ratings of an instance of a subclass that adds nothing"))
+    except BaseException as e:  # noqa
+        fails.append(failure("class Sub(C): pass behaves like C", "%s: %s" % (type(e).__name__, e)))
     if tuple(sev) != want_sev:
         fails.append(failure(list(want_sev), repr(sev), note="severities() vs official scale applied to the oracle scores %r" % (exp,)))
     if ver == "4" and getattr(o, "severity", None) != want_sev[0]:
